@@ -1,6 +1,7 @@
 package sstable
 
 import (
+	"bytes"
 	"encoding/binary"
 	"fmt"
 	"sync"
@@ -105,15 +106,11 @@ func (it *Iterator) Seek(target []byte) bool {
 	it.initialized = true
 
 	// Find the block that might contain the key
-	// The index contains the first key of each block
-	if !it.indexIterator.Seek(target) {
-		// If seeking in the index fails, try the last block
-		it.indexIterator.SeekToLast()
-		if !it.indexIterator.Valid() {
-			// No blocks in the SSTable
-			it.resetBlockIterator()
-			return false
-		}
+	it.seekIndexToBlockFor(target)
+	if !it.indexIterator.Valid() {
+		// No blocks in the SSTable
+		it.resetBlockIterator()
+		return false
 	}
 
 	// Load the data block at the current index position
@@ -130,6 +127,27 @@ func (it *Iterator) Seek(target []byte) bool {
 
 	// If we didn't find the key in this block, it might be in a later block
 	return it.seekInNextBlocks()
+}
+
+// seekIndexToBlockFor positions the index iterator at the block in which a
+// search for target has to start. The index holds the first key of each
+// block, so this is the last block whose first key is <= target (the first
+// block if there is none): an earlier block holds only smaller keys, and the
+// first key >= target may still be inside this one
+func (it *Iterator) seekIndexToBlockFor(target []byte) {
+	var blockKey []byte
+	for it.indexIterator.SeekToFirst(); it.indexIterator.Valid(); it.indexIterator.Next() {
+		if bytes.Compare(it.indexIterator.Key(), target) > 0 {
+			break
+		}
+		blockKey = it.indexIterator.Key()
+	}
+
+	if blockKey != nil {
+		it.indexIterator.Seek(blockKey)
+	} else {
+		it.indexIterator.SeekToFirst()
+	}
 }
 
 // Next advances the iterator to the next key
